@@ -6,6 +6,9 @@ use crate::Ctx;
 use flexi_logger::{LogSpecification, Logger, WriteMode};
 use log::Record;
 
+/// the reports of the reference run of the last `ERRCHAN` line (for the case as executed)
+pub static ERRCHAN_REF: std::sync::Mutex<Option<String>> = std::sync::Mutex::new(None);
+
 pub fn mode_of(m: &str) -> WriteMode {
     let p: Vec<&str> = m.split(':').collect();
     match p[0] {
@@ -35,6 +38,63 @@ pub fn child_std(args: &[String]) {
     std::process::exit(0);
 }
 
+
+/// child: `fvh child errchan <channel> <faults> <dir> <nrec>` — a logger that writes to a rotating
+/// file in `<dir>/log`, its error channel as named; one file-system operation fails (hook) at
+/// every record whose number is divisible by 3.
+pub fn child_errchan(args: &[String]) {
+    use flexi_logger::{Cleanup, Criterion, ErrorChannel, FileSpec, Naming};
+    let dir = std::path::PathBuf::from(&args[2]);
+    let chan = match args[0].as_str() {
+        "stderr" => ErrorChannel::StdErr,
+        "stdout" => ErrorChannel::StdOut,
+        "file" => ErrorChannel::File(dir.join("err.txt")),
+        "badfile" => ErrorChannel::File(dir.join("no-such-directory").join("err.txt")),
+        _ => ErrorChannel::DevNull,
+    };
+    let kind: &'static str = match args[1].as_str() { "write" => "write", "rename" => "rename", "open" => "open", _ => "none" };
+    let (boxed, handle) = Logger::with(LogSpecification::trace())
+        .format(crate::props::flw::raw_format)
+        .log_to_file(FileSpec::default().directory(dir.join("log")).basename("app"))
+        .rotate(Criterion::Size(20), Naming::Numbers, Cleanup::Never)
+        .error_channel(chan)
+        .panic_if_error_channel_is_broken(false)
+        .build().unwrap();
+    let n: usize = args[3].parse().unwrap();
+    let armed = std::sync::Arc::new(std::sync::atomic::AtomicBool::new(false));
+    let a2 = armed.clone();
+    flexi_logger::verif_hooks::set_fault_handler(Some(std::sync::Arc::new(move |k, _p| {
+        if k == kind && a2.swap(false, std::sync::atomic::Ordering::SeqCst) { Some(std::io::Error::new(std::io::ErrorKind::PermissionDenied, "injected fault")) } else { None }
+    })));
+    for i in 0..n {
+        armed.store(i % 3 == 0, std::sync::atomic::Ordering::SeqCst);
+        boxed.log(&Record::builder().level(log::Level::Info).target("t").args(format_args!("record number {i} of the error-channel run")).build());
+    }
+    armed.store(false, std::sync::atomic::Ordering::SeqCst);
+    handle.shutdown();
+    std::process::exit(0);
+}
+
+/// the reports in a captured stream / file: the error codes, and the line about an unopenable file
+fn report_kinds(text: &[u8]) -> Vec<String> {
+    String::from_utf8_lossy(text).lines().filter_map(|l| {
+        if let Some(rest) = l.strip_prefix("[flexi_logger][ERRCODE::") { rest.split(']').next().map(str::to_string) }
+        else if l.starts_with("Can't open error output file") { Some("cantopen".to_string()) }
+        else { None }
+    }).collect()
+}
+fn run_errchan(work: &std::path::Path, ch: &str, fault: &str, n: &str, tag: &str) -> (Vec<String>, Vec<String>, Vec<String>) {
+    let dir = work.join(format!("errchan-{}-{tag}", std::process::id()));
+    let _ = std::fs::remove_dir_all(&dir);
+    std::fs::create_dir_all(dir.join("log")).unwrap();
+    let exe = std::env::current_exe().unwrap();
+    let o = std::process::Command::new(exe).arg("child").arg("errchan").arg(ch).arg(fault).arg(&dir).arg(n).output().expect("child");
+    let file = std::fs::read(dir.join("err.txt")).unwrap_or_default();
+    let r = (report_kinds(&o.stderr), report_kinds(&o.stdout), report_kinds(&file));
+    let _ = std::fs::remove_dir_all(&dir);
+    r
+}
+
 pub fn execute(ctx: &mut Ctx, lines: &[String]) -> Vec<String> {
     let case_id = tokens(&lines[0])[2..].join(" ");
     let mut out = Vec::new();
@@ -54,6 +114,25 @@ pub fn execute(ctx: &mut Ctx, lines: &[String]) -> Vec<String> {
                     ctx.report.fail(&case_id, "std-stream-incomplete", &format!("line {li}: mode {mode}, {target}, ended by {how}: the child logged {} bytes in {} records, the stream holds {} bytes: {:?}", want.len(), ls.len(), got.len(), String::from_utf8_lossy(&got)));
                 }
                 hex(&got)
+            }
+            // C19: the reports of a run with failing operations arrive on the configured error channel.
+            // Reference = the same run with an openable error file; answered in the form of the
+            // rewritten line `ERRCHANOBS <channel> <reports of the reference run>`
+            ["ERRCHAN", ch, fault, n] | ["ERRCHANOBS", ch, fault, n, ..] => {
+                let (_, _, reference) = run_errchan(&ctx.work, "file", fault, n, "ref");
+                let (e, o, f) = run_errchan(&ctx.work, ch, fault, n, "run");
+                ctx.report.count(&format!("errchan.{ch}.{fault}"));
+                ctx.report.nontrivial_case(lines);
+                let sh = |l: &Vec<String>| if l.is_empty() { "-".to_string() } else { l.join(",") };
+                if *fault != "none" && reference.is_empty() {
+                    ctx.report.fail(&case_id, "failure-not-reported", &format!("line {li}: {n} records with a failing `{fault}` at every third one, error channel = file: nothing was reported"));
+                }
+                let all: Vec<&String> = e.iter().chain(o.iter()).chain(f.iter()).filter(|k| k.as_str() != "cantopen").collect();
+                if *ch != "devnull" && all.len() != reference.len() {
+                    ctx.report.fail(&case_id, "report-lost-on-channel", &format!("line {li}: error channel `{ch}`: the reference run (error file) reported {:?}, this run stderr {:?} stdout {:?} file {:?}", reference, e, o, f));
+                }
+                *ERRCHAN_REF.lock().unwrap() = Some(sh(&reference));
+                format!("err={}|out={}|file={}", sh(&e), sh(&o), sh(&f))
             }
             ["RECURSE", mode, target, ..] if t.len() <= 5 => {
                 let depth: u32 = t.get(3).and_then(|d| d.parse().ok()).unwrap_or(1);
@@ -112,6 +191,19 @@ pub fn gen_std(prop: &str, tier: &str, seed: u64) -> Vec<Vec<String>> {
         let nl = r.range(1, if tier == "thorough" { 400 } else { 120 });
         let ls: Vec<String> = (0..nl).map(|i| hex(&crate::props::flwgen::record(i, *r.pick(&[2u64, 10, 40, 200])))).collect();
         cases.push(vec![format!("CASE std {prop} s{k}"), format!("STDRUN {mode} {target} {how} {}", ls.join(" ")), "END".into()]);
+    }
+    cases
+}
+
+/// C19: every `ErrorChannel` variant x which operation fails
+pub fn gen_errchan(tier: &str, seed: u64) -> Vec<Vec<String>> {
+    let mut r = Rng::new(seed ^ 0xE44C);
+    let mut cases = Vec::new();
+    let n = if tier == "thorough" { 60 } else { 15 };
+    for k in 0..n {
+        let ch = ["stderr", "stdout", "file", "badfile", "devnull"][(k % 5) as usize];
+        let fault = *r.pick(&["write", "rename", "open", "write", "none"]);
+        cases.push(vec![format!("CASE std C19 e{k}"), format!("ERRCHAN {ch} {fault} {}", r.range(4, 30)), "END".into()]);
     }
     cases
 }
